@@ -49,8 +49,8 @@ S2_NOTE = ("Trusted base: the harness's M-client model (live set of accepted pub
            "(inflight < max && no collision) for the state-machine substrate; the real MqttState (v4 and v5) is driven through its public API, every call under catch_unwind "
            "with overflow checks on. Held on the histories counted in the evidence file.")
 checks.update({
- "C02": dict(level="exploration", ref="3 C02, Appendix B", tech="runtime monitoring: the real MqttState (v4/v5) driven by seeded hostile publish/ack/reconnect histories; after every call the live set of accepted publishes must be contained in what the state holds for retransmission (clean() on a clone + collision + pending)", note=S2_NOTE,
-             text="After every handle_* call: every accepted, not finally acknowledged QoS1/2 publish (unique payload id) is in flight or held for retransmission, inflight accounting is exact, and across simulated reconnects with session present every live publish and pending release is handed back for retransmission with its original id; ack orders in/out of order, duplicate, unsolicited, wrong kind, v5 failure reason codes, id wrap-around and collisions. State-machine substrate (S2); the byte-level crash-point enumeration through the real event loop is C11's check."),
+ "C02": dict(level="fault_enumeration", ref="3 C02, Appendix B", tech="runtime monitoring with fault enumeration: the real MqttState (v4/v5) driven by seeded hostile publish/ack/reconnect histories, and the real EventLoop over an in-memory transport cut at every byte offset of both directions; after every call / poll() the live set of accepted publishes must be contained in what the client holds for retransmission (clean() on a clone + collision + pending)", note=S2_NOTE + " The event-loop half uses the S3 substrate (scripted broker, virtual time, FaultyStream); crash points are enumerated exhaustively per directed history, histories are sampled.",
+             text="After every handle_* call: every accepted, not finally acknowledged QoS1/2 publish (unique payload id) is in flight or held for retransmission, inflight accounting is exact, and across simulated reconnects with session present every live publish and pending release is handed back for retransmission with its original id; ack orders in/out of order, duplicate, unsolicited, wrong kind, v5 failure reason codes, id wrap-around and collisions. State-machine substrate (S2) for the ack-order space; event-loop substrate (S3) with every byte-level crash point of directed histories in both directions and reconnects with session present / absent."),
  "C07": dict(level="exploration", ref="3 C07", tech="runtime monitoring: wire-side shadow of unacknowledged packet ids and state-side invariants of the real MqttState (v4/v5) after every call, with the event loop's request gate mirrored", note=S2_NOTE,
              text="Every packet the state machine hands to the wire has an id in 1..=limit, no two simultaneously unacknowledged publishes share an id (unacknowledged = until PUBACK / PUBCOMP), at most `limit` unacknowledged, no request accepted while the window is full or a collision is pending and acceptance resumes after a freeing ack, collision pending only while its id is genuinely held; limits 1..65535, v5 receive-maximum lowered by CONNACK."),
  "C10": dict(level="exploration", ref="3 C10", tech="runtime monitoring: broker packet sequences of every type/id fed to the real MqttState (v4/v5) and through the real EventLoop over an in-memory transport; incoming/outgoing event logs aligned with the wire log", note=S2_NOTE + " The event-loop half uses the S3 substrate (scripted broker, virtual time).",
